@@ -12,7 +12,7 @@ from mzverif.core import Sub, call, require
 
 ID = "C01"
 LEVEL = "exploration"
-TECHNIQUE = "Hypothesis over (generator, shape incl. its container: int64/int8/int16/int32 array, tuple, list; accepted kwargs; RNG seeds); oracle = validity predicate from an independent graph model (shape/dtype/boundary bits, union-find spanning-tree test, exact percolation extremes)"
+TECHNIQUE = "Hypothesis over (generator, shape incl. its container: int64/int8/int16/int32 array, tuple, list; accepted kwargs; RNG seeds; corridor-like grids with a side of 30..140, thorough ..257); oracle = validity predicate from an independent graph model (shape/dtype/boundary bits, union-find spanning-tree test, exact percolation extremes)"
 RULE = (
     "case = (generator name, r, c, kwargs from the accepted domains, numpy seed, python seed); the globals are seeded from the case "
     "so every RNG state is a generated input. Sub-domain 'defaults' calls gen_dfs/gen_wilson with default arguments only and "
